@@ -71,9 +71,9 @@ def build_msg(m):
     return msg
 
 
-def proj_int(ep):
+def proj_int(ep, scale=1):
     p = ep.project()
-    p["last"] = int(p["last"])
+    p["last"] = int(round(p["last"] * scale))
     return p
 
 
@@ -90,9 +90,13 @@ def out_of(ep, exc="none"):
 class Session:
     """One recording endpoint + its scripted peer."""
 
-    def __init__(self, declined=(), hb=30, nin=1, nout=1, cls=RecConn, sender="A", target="B"):
+    def __init__(self, declined=(), hb=30, nin=1, nout=1, cls=RecConn, sender="A", target="B", scale=1, phase=0):
         self.loop = VLoop()
         install_clock(self.loop)
+        self.scale = scale          # recorded times are in units of 1/scale second
+        self.phase = None           # wake-up phase of the heartbeat task (set when the tasks start)
+        if phase:
+            self.loop.advance(phase / scale)
         j = Journaler()
         if (nin, nout) != (1, 1):
             s = j.create_or_load(target, sender)
@@ -108,14 +112,16 @@ class Session:
 
     def apply(self, rev):
         ep = self.ep
-        pre = proj_int(ep)
-        ev = resolve(pre, rev, int(self.loop.time()))
+        pre = proj_int(ep, self.scale)
+        ev = resolve(pre, rev, int(round(self.loop.time() * self.scale)))
         exc = "none"
         t = ev["t"]
         if t == "attach":
+            if self.phase is None:
+                self.phase = int(round(self.loop.time() * self.scale)) % self.scale
             ep.attach()
             self.loop.advance(1.0)   # the reader task polls for a new socket once per second
-            ev = dict(ev, now=int(self.loop.time()))
+            ev = dict(ev, now=int(round(self.loop.time() * self.scale)))
         elif t == "frame":
             f = ev["f"]
             if ep.reader is not None and ep.conn._socket_reader is ep.reader and not ep.reader._eof and ep.reader.exception() is None:
@@ -136,12 +142,18 @@ class Session:
                 exc = "none"
         elif t == "eof":
             ep.eof(ev.get("how", "eof"))
+        elif t == "adv":
+            self.loop.advance(1.0 / self.scale)
+            now = int(round(self.loop.time() * self.scale))
+            ev = {"t": "adv", "now": now, "wake": now % self.scale == self.phase, "H": self.hb, "S": self.scale}
         elif t == "tick":
             self.loop.advance(ev["dt"])
             ev = dict(ev, now=int(self.loop.time()), H=self.hb)
+        if "now" not in ev:
+            ev = dict(ev, now=int(round(self.loop.time() * self.scale)))
         out, raw = out_of(ep, exc)
         self.raw.extend(raw)
-        post = proj_int(ep)
+        post = proj_int(ep, self.scale)
         self.steps.append({"ev": ev, "pre": pre, "out": out, "post": post})
         return self.steps[-1]
 
@@ -154,7 +166,8 @@ class Session:
 
 def run_trace(spec):
     """spec = {id, revs, declined?, hb?, nin?, nout?}  ->  trace record for SessionEval."""
-    s = Session(declined=spec.get("declined", ()), hb=spec.get("hb", 30), nin=spec.get("nin", 1), nout=spec.get("nout", 1))
+    s = Session(declined=spec.get("declined", ()), hb=spec.get("hb", 30), nin=spec.get("nin", 1), nout=spec.get("nout", 1),
+                scale=spec.get("scale", 1), phase=spec.get("phase", 0))
     err = None
     try:
         with watchdog(spec.get("watchdog", 30)):
@@ -164,7 +177,8 @@ def run_trace(spec):
         err = "%s: %s" % (type(ex).__name__, ex)
     finally:
         s.close()
-    rec = {"id": spec["id"], "declined": list(spec.get("declined", ())), "steps": s.steps}
+    rec = {"id": spec["id"], "declined": list(spec.get("declined", ())), "steps": s.steps,
+           "H": spec.get("hb", 30), "S": spec.get("scale", 1)}
     if err:
         rec["harness_error"] = err
     if spec.get("keep_raw"):
